@@ -241,6 +241,37 @@ func genWrites(repo, out string) error {
 	}
 	b.WriteString("]\n\nend Gotree.Gen.C19Writes\n")
 	p := filepath.Join(out, "C19Writes.lean")
+	if old, err := os.ReadFile(p); err != nil || string(old) != b.String() {
+		if err := os.WriteFile(p, []byte(b.String()), 0644); err != nil {
+			return err
+		}
+	}
+	return genChanged(repo, out)
+}
+
+// genChanged writes lean/Gotree/Gen/C19Changed.lean: table (f), the `Changed` tests (changed.go).
+func genChanged(repo, out string) error {
+	cs, problems := changedSites(repo)
+	var b strings.Builder
+	b.WriteString("-- GENERATED by harness/c19/changed.go (`vh gen-tables`) from the source of cmd/*.go; do not edit.\n")
+	b.WriteString("-- One row per test of whether an option was GIVEN (Flags().Changed(\"x\"), Flag(\"x\").Changed, …) in a command body.\n")
+	b.WriteString("import Gotree.Model.C19Glue\n\nnamespace Gotree.Gen.C19Changed\nopen Gotree.C19.Glue\n\n")
+	b.WriteString("def sites : List ChangedSite := [")
+	for i, c := range cs {
+		if i > 0 {
+			b.WriteString(",")
+		}
+		fmt.Fprintf(&b, "\n  ⟨%s, %s, %s⟩", leanStr(c.Path), leanStr(c.Flag), leanStr(c.File))
+	}
+	b.WriteString("]\n\ndef problems : List String := [")
+	for i, p := range problems {
+		if i > 0 {
+			b.WriteString(", ")
+		}
+		b.WriteString(leanStr(p))
+	}
+	b.WriteString("]\n\nend Gotree.Gen.C19Changed\n")
+	p := filepath.Join(out, "C19Changed.lean")
 	if old, err := os.ReadFile(p); err == nil && string(old) == b.String() {
 		return nil
 	}
